@@ -2,7 +2,7 @@
 //verif:use store,corehelp
 //verif:assume histories of 2 (thorough: 3) operations, each a label assignment or deletion chosen by the solver over labels {v1, v1-rc}, repositories {r, r2} and bundles {B1, B2}; Label values are reused across operations (as a caller holding a Label may do); stores are the in-memory model, yaml.v2 round-trips opaque documents
 //verif:assume label names in VerifC08Names: 1..2 arbitrary bytes
-//verif:cover VerifC08History reassigned deleted-then-get same-label-two-repos
+//verif:cover VerifC08History reassigned deleted-then-get same-label-two-repos probe-fault-on-a-live-label
 //verif:cover VerifC08Names accepted-and-listed
 //verif:cover VerifC08RepoRecreate labels-without-bundles
 package core
@@ -112,6 +112,23 @@ func VerifC08History() {
 				if sets[r+"/"+l] > 0 {
 					vCover("deleted-then-get")
 				}
+			}
+		}
+		// a store fault while probing a live label is reported as such: the label is never declared absent
+		for _, l := range labels {
+			if _, live := model_[r+"/"+l]; live {
+				vmeta.fail = func(op, key string) error {
+					if op == "has" {
+						return errVFault
+					}
+					return nil
+				}
+				lab := NewLabel(LabelDescriptor(model.NewLabelDescriptor(model.LabelName(l))))
+				err := lab.DownloadDescriptor(ctx, NewBundle(Repo(r), ContextStores(stores), Logger(zap.NewNop())), true)
+				vmeta.fail = nil
+				vCover("probe-fault-on-a-live-label")
+				vAssert(err == nil || !errors.Is(err, status.ErrNotFound), "store-fault-is-not-reported-as-label-not-found")
+				break
 			}
 		}
 		got, err := ListLabels(r, stores)
